@@ -153,7 +153,7 @@ func (g *Gen) enterLoop(li *loopInfo, ins []inEdge, fwdPreds []*ssa.BasicBlock) 
 			g.assert(imp(old, n))
 		case strings.HasPrefix(gh, "$allok:"):
 			g.assert(imp(n, old))
-		case strings.HasPrefix(gh, "$count:"):
+		case strings.HasPrefix(gh, "$count:"), strings.HasPrefix(gh, "$sumlen:"):
 			g.assert(sx(">=", n, old))
 		case strings.HasPrefix(gh, "$since:"), strings.HasPrefix(gh, "$sent:"):
 			g.assert(sx(">=", n, "0"))
@@ -394,6 +394,21 @@ func (g *Gen) loopMods(li *loopInfo) (comps []string, ghosts []string) {
 								gs["$since:"+sn[0]+"|"+sn[1]] = true
 							}
 						}
+						for an := range g.argOfWanted {
+							if strings.HasPrefix(an, "$arg:"+name+":") {
+								gs[an] = true
+							}
+						}
+						for en := range g.exportWanted {
+							if strings.HasPrefix(en, "$exp:"+name+":") {
+								gs[en] = true
+							}
+						}
+						for sn := range g.sumlenWanted {
+							if strings.HasPrefix(sn, "$sumlen:"+name+":") {
+								gs[sn] = true
+							}
+						}
 						rs := cc.Signature().Results()
 						for ri := 0; ri < rs.Len(); ri++ {
 							gn := fmt.Sprintf("$res:%s:%d", name, ri)
@@ -458,6 +473,20 @@ func (g *Gen) collectSelectors() {
 		}
 		if e.Kind == SCall && e.Name == "result_of" && len(e.Args) == 2 {
 			g.selectors[selName(e.Args[0])] = true
+		}
+		if e.Kind == SCall && e.Name == "exported" && len(e.Args) == 2 {
+			g.selectors[selName(e.Args[0])] = true
+			if g.exportWanted == nil {
+				g.exportWanted = map[string]bool{}
+			}
+			g.exportWanted[fmt.Sprintf("$exp:%s:%s", selName(e.Args[0]), selName(e.Args[1]))] = true
+		}
+		if e.Kind == SCall && e.Name == "sumlen" && len(e.Args) == 2 {
+			g.selectors[selName(e.Args[0])] = true
+			if g.sumlenWanted == nil {
+				g.sumlenWanted = map[string]bool{}
+			}
+			g.sumlenWanted[fmt.Sprintf("$sumlen:%s:%s", selName(e.Args[0]), e.Args[1].Name)] = true
 		}
 		if e.Kind == SCall && e.Name == "arg_of" && len(e.Args) == 2 {
 			g.selectors[selName(e.Args[0])] = true
